@@ -109,6 +109,19 @@ func Load(o LoadOpts) (*World, error) {
 		}
 		return nil, fmt.Errorf("load/type errors: %s", strings.Join(errs, "; "))
 	}
+	if mode == packages.LoadAllSyntax {
+		// the dependencies were type-checked from source only to avoid compiling them; their syntax trees and per-node type
+		// information are not used by any rule (TrustedBase parses what it needs itself) and are most of the memory
+		initial := map[*packages.Package]bool{}
+		for _, p := range pkgs {
+			initial[p] = true
+		}
+		packages.Visit(pkgs, nil, func(p *packages.Package) {
+			if !initial[p] {
+				p.Syntax, p.TypesInfo = nil, nil
+			}
+		})
+	}
 	if len(pkgs) < 95 {
 		return nil, fmt.Errorf("only %d packages loaded from %s (expected >= 95): refusing a vacuous analysis", len(pkgs), o.Dir)
 	}
